@@ -151,7 +151,11 @@ def run(ctx, res):
             vals = np.arange(len(df), dtype=float) * 37.5 + 100.25
             d2 = df.copy()
             d2[given] = vals
-            tg = [f"{base}{u}" for u in rest] + [f"{base}{rest[0]}_hh"]
+            # the household sum is only predicted when no unit variant of <base>_hh is a data column or a rule of its own
+            # (e.g. bruttokaltmiete_m_hh is an input; its unit variants follow THAT column, not the persons' shares)
+            hh_own = any(f"{base}{u}_hh" in df.columns or (f"{base}{u}_hh" in d["nodes"] and isinstance(d["nodes"][f"{base}{u}_hh"]["kind"], dict)
+                                                           and d["nodes"][f"{base}{u}_hh"]["kind"].get("k") == "rule") for u in "ymwd")
+            tg = [f"{base}{u}" for u in rest] + ([] if hh_own else [f"{base}{rest[0]}_hh"])
             try:
                 with_data, _ = engine.simulate(d2, o, targets=tg)
             except Exception as ex:  # noqa: BLE001
@@ -163,7 +167,7 @@ def run(ctx, res):
                 fac = float(PER_YEAR[u2] / PER_YEAR[u])
                 exp = vals * fac
                 checks = [(f"{base}{u}", exp)]
-                if u == rest[0]:
+                if u == rest[0] and not hh_own:
                     checks.append((f"{base}{u}_hh", np.array([exp[hh == h].sum() for h in hh])))
                 for x, e in checks:
                     stats["unit_columns_compared"] += 1
